@@ -160,6 +160,8 @@ func ParseFrame(raw []byte) *Frame {
 // Stream is everything observed on the writer for one execution.
 type Stream struct {
 	Frames     []*Frame
+	Flushes    [][]*Frame // per Flush call: the JSON documents it handed over (SplitFlush)
+	Foreign    int        // writer calls that arrived while a Flush was in progress
 	Completes  int
 	Unflushed  int
 	AfterDone  bool
@@ -175,13 +177,63 @@ func StreamOf(run *Run) *Stream {
 	}
 	for _, raw := range run.Rec.Frames {
 		s.Frames = append(s.Frames, ParseFrame(raw))
+		s.Flushes = append(s.Flushes, SplitFlush(raw))
 	}
+	s.Foreign = run.Rec.Foreign()
 	// a synchronous (non-deferred) response is written without any Flush
 	if len(s.Frames) == 0 && s.Unflushed > 0 && s.Completes == 0 {
 		s.Frames = append(s.Frames, ParseFrame(run.Rec.Unflushed()))
 		s.Unflushed = 0
 	}
 	return s
+}
+
+// SplitFlush: the JSON documents one Flush handed over, each parsed as a frame.  Nothing at all gives
+// the empty list; bytes that are not the start of a JSON document end the list with a frame that
+// carries the parse error.
+func SplitFlush(raw []byte) []*Frame {
+	var out []*Frame
+	dec := json.NewDecoder(bytes.NewReader(raw))
+	for {
+		var tmp json.RawMessage
+		err := dec.Decode(&tmp)
+		if err == io.EOF {
+			return out
+		}
+		if err != nil {
+			return append(out, &Frame{Raw: raw, HasNext: -1, ParseErr: "not a JSON document: " + err.Error()})
+		}
+		out = append(out, ParseFrame(tmp))
+	}
+}
+
+// CheckFlushes (clause flush_atomic; Go twin of the extracted flushes_ok_b): render + flush of one frame is
+// one critical section, so every Flush hands over exactly one frame -- never nothing, never two -- no
+// writer call arrives while a Flush is in progress, and nothing is flushed after the frame that said hasNext:false.
+func CheckFlushes(s *Stream) []Fail {
+	var out []Fail
+	bad := func(format string, a ...any) { out = append(out, Fail{"flush_atomic", fmt.Sprintf(format, a...)}) }
+	final := -1
+	for i, fl := range s.Flushes {
+		if final >= 0 {
+			bad("flush %d comes after the final frame (hasNext:false was handed over by flush %d)", i, final)
+		}
+		switch {
+		case len(fl) == 0:
+			bad("flush %d hands over nothing (an empty payload)", i)
+		case len(fl) > 1:
+			bad("flush %d hands over %d frames at once: %s", i, len(fl), trunc(string(s.Frames[i].Raw), 300))
+		}
+		for _, f := range fl {
+			if f.ParseErr == "" && f.HasNext == 0 && final < 0 {
+				final = i
+			}
+		}
+	}
+	if s.Foreign > 0 {
+		bad("%d writer call(s) arrived while a Flush was in progress (render + flush is not one critical section)", s.Foreign)
+	}
+	return out
 }
 
 // Fail is one failed clause.
